@@ -84,8 +84,14 @@ func NewFixture(v Variant) *Fixture {
 	ks := fixtures.ByAlg("ed25519")
 	root, mid, leaf := ks[0], ks[1], ks[2]
 	vals := map[string]int{"a": 1, "b": 2, "c": 3}
-	pol0 := policy.MustConstruct(policy.Equal(".a?", literal.Int(1)), policy.Or(policy.Equal(".b?", literal.Int(2)), policy.Equal(".zz", literal.Int(0))))
-	pol1 := policy.MustConstruct(policy.LessThanOrEqual(".c?", literal.Int(3)))
+	// policies are built with append so that their slices have spare capacity, like policies
+	// assembled incrementally by an application: a read-only operation that appends to such a
+	// slice writes into memory shared with the token
+	withSpare := func(p policy.Policy) policy.Policy {
+		return append(make(policy.Policy, 0, len(p)+5), p...)
+	}
+	pol0 := withSpare(policy.MustConstruct(policy.Equal(".a?", literal.Int(1)), policy.Or(policy.Equal(".b?", literal.Int(2)), policy.Equal(".zz?", literal.Int(0)))))
+	pol1 := withSpare(policy.MustConstruct(policy.LessThanOrEqual(".c?", literal.Int(3))))
 	mk := func(iss, aud *fixtures.Key, pol policy.Policy) *delegation.Token {
 		opts := []delegation.Option{delegation.WithSubject(root.DID), delegation.WithNonce(fixedNonce)}
 		for _, k := range v.Keys {
@@ -246,6 +252,31 @@ func Ops() []Op {
 			c := f.Inv.Arguments().WriteableClone()
 			return fmt.Sprint(f.Inv.Arguments().Equals(c.ReadOnly()), strings.Join(c.Keys, ","))
 		}},
+		{"inv.Arguments.Clone+Add", func(f *Fixture, s Seam) string {
+			// extending a writeable clone must not touch the token (nor another clone)
+			c := f.Inv.Arguments().WriteableClone()
+			point(s)
+			err := c.Add("zz", 7)
+			point(s)
+			return errStr(err) + strings.Join(c.Keys, ",")
+		}},
+		{"inv.ExecutionAllowedWithArgsHook(extending)", func(f *Fixture, s Seam) string {
+			return errStr(f.Inv.ExecutionAllowedWithArgsHook(loader{f, s}, func(a args.ReadOnly) (*args.Args, error) {
+				c := a.WriteableClone()
+				point(s)
+				if err := c.Add("zz", 0); err != nil {
+					return nil, err
+				}
+				point(s)
+				return c, nil
+			}))
+		}},
+		{"inv.Meta.Clone+Add", func(f *Fixture, s Seam) string {
+			c := f.Inv.Meta().WriteableClone()
+			point(s)
+			err := c.Add("zz", "x")
+			return errStr(err) + strings.Join(c.Keys, ",")
+		}},
 		{"inv.Meta.Iter", func(f *Fixture, s Seam) string {
 			var r []string
 			for k, v := range f.Inv.Meta().Iter() {
@@ -383,9 +414,17 @@ func dumpValue(b *strings.Builder, v reflect.Value, depth int) {
 			fmt.Fprintf(b, "bytes(%x)", bs)
 			return
 		}
-		fmt.Fprintf(b, "[len=%d ", v.Len())
-		for i := 0; i < v.Len(); i++ {
-			dumpValue(b, v.Index(i), depth+1)
+		// the spare capacity is part of the state: a write beyond len lands in shared memory
+		fmt.Fprintf(b, "[len=%d cap=%d ", v.Len(), v.Cap())
+		full := v
+		if v.Cap() > v.Len() && v.Cap()-v.Len() <= 64 {
+			full = v.Slice(0, v.Cap())
+		}
+		for i := 0; i < full.Len(); i++ {
+			if i == v.Len() {
+				b.WriteString("|spare:")
+			}
+			dumpValue(b, full.Index(i), depth+1)
 			b.WriteString(",")
 		}
 		b.WriteString("]")
